@@ -260,6 +260,41 @@ func c09Scenarios(c *Ctx) []crashScenario {
 			e := append(append([]string(nil), env...), "VERIF_AGENT_SCRIPT="+filepath.Join(c.Work, "c09-agent-script"), "VERIF_AGENT_REPEAT=1")
 			return runIn(dir, e, c.Lfs, "fetch", "--all")
 		}},
+		{Name: "fetch-agent-wrong-content", MayFail: true, Setup: func(dir string, srv *fpServer, r *Rng) error {
+			// a custom transfer agent (what `git-lfs standalone-file` is for a file:// remote with a damaged
+			// store) that hands over a file of the right size and the wrong content for one object: nothing
+			// it delivers may sit under that object's name at ANY point a SIGKILL can land
+			self, err := os.Executable()
+			if err != nil {
+				return err
+			}
+			scratch := filepath.Join(c.Work, "c09-liar-scratch")
+			store := filepath.Join(c.Work, "c09-liar-store")
+			os.MkdirAll(scratch, 0o755)
+			os.MkdirAll(store, 0o755)
+			contents, err := commitPointers(dir, nil, r, 3, false)
+			if err != nil {
+				return err
+			}
+			for i, b := range contents {
+				nb := append([]byte(nil), b...)
+				if i == 1 {
+					nb[len(nb)/2] ^= 0x01 // same size, other content
+				}
+				os.WriteFile(filepath.Join(store, sha(b)), nb, 0o644)
+			}
+			script := filepath.Join(c.Work, "c09-liar-script")
+			os.WriteFile(script, []byte("x/"+store+"|"+scratch+"\n"), 0o644)
+			gitIn(dir, nil, "config", "lfs.url", "http://127.0.0.1:9/never-contacted")
+			gitIn(dir, nil, "config", "lfs.standalonetransferagent", "liar")
+			gitIn(dir, nil, "config", "lfs.customtransfer.liar.path", self)
+			gitIn(dir, nil, "config", "lfs.customtransfer.liar.args", "custom-agent")
+			gitIn(dir, nil, "config", "lfs.customtransfer.liar.concurrent", "false")
+			return nil
+		}, Run: func(dir string, env []string) (string, int) {
+			e := append(append([]string(nil), env...), "VERIF_AGENT_SCRIPT="+filepath.Join(c.Work, "c09-liar-script"), "VERIF_AGENT_REPEAT=1")
+			return runIn(dir, e, c.Lfs, "fetch", "--all")
+		}},
 		{Name: "migrate-import", Setup: func(dir string, srv *fpServer, r *Rng) error {
 			for i := 0; i < 2; i++ {
 				os.WriteFile(filepath.Join(dir, fmt.Sprintf("m%d.big", i)), r.Bytes(Pick(r, []int{3000, 80000})), 0o644)
